@@ -92,10 +92,8 @@ pub struct ParentCfg {
     pub extra: Vec<String>,
     /// configuration groups ("network/traces"); each group gets its own worker processes
     pub groups: Vec<String>,
-    /// results of an additional pass of the property (merged into the evidence)
-    pub extra_coverage: Option<Value>,
-    pub extra_violations: Vec<Violation>,
-    pub extra_errors: Vec<String>,
+    /// an additional pass of the property running concurrently with the workers (joined after them)
+    pub extra_pass: std::cell::RefCell<Option<std::thread::JoinHandle<(Value, Vec<Violation>, Vec<String>)>>>,
 }
 
 /// Spawn `n` worker processes `vmc worker <property> <tier> <i> <n> <budget> <seed> <validate> [extra..]`
@@ -210,7 +208,14 @@ pub fn parent_main(p: &ParentCfg, expected_scenarios: &[(String, usize)]) -> i32
     let t0 = Instant::now();
     inst::cleanup_stale_scratch();
     let (merged, mut errors) = spawn_workers(p);
-    errors.extend(p.extra_errors.iter().cloned());
+    let (extra_coverage, extra_violations, extra_errors) = match p.extra_pass.borrow_mut().take() {
+        Some(h) => {
+            let (c, v, e) = h.join().expect("additional pass");
+            (Some(c), v, e)
+        }
+        None => (None, vec![], vec![]),
+    };
+    errors.extend(extra_errors);
     let mut total = Stats { complete: true, ..Default::default() };
     let mut per_scenario = Vec::new();
     let mut states: BTreeSet<String> = BTreeSet::new();
@@ -237,7 +242,7 @@ pub fn parent_main(p: &ParentCfg, expected_scenarios: &[(String, usize)]) -> i32
         total.complete &= c;
     }
     let mut ev = Evidence::new(&p.property, &p.tier, p.seed, &p.level);
-    total.violations.extend(p.extra_violations.iter().cloned());
+    total.violations.extend(extra_violations);
     let (violations, mut known) = evidence::triage(&p.property, total.violations.clone());
     known.extend(total.known.iter().cloned());
     let mut replay_paths = Vec::new();
@@ -254,8 +259,8 @@ pub fn parent_main(p: &ParentCfg, expected_scenarios: &[(String, usize)]) -> i32
         "known_findings": known.iter().map(|(id, v)| json!({"id": id, "path": v.path, "kind": v.kind})).collect::<Vec<_>>(),
         "machinery_errors": errors,
     });
-    if let Some(x) = &p.extra_coverage {
-        ev.coverage["pinned_digests"] = x.clone();
+    if let Some(x) = &extra_coverage {
+        ev.coverage[if p.property == "C02" { "pinned_digests" } else { "additional_pass" }] = x.clone();
     }
     ev.assumptions = p.assumptions.clone();
     ev.violations = violations.len() as i64;
